@@ -126,7 +126,10 @@ Proof.
          first [ same_blobs; apply Hg
                | apply del_blob_ok; apply Hg
                | apply put_blob_ok; [apply Hg | simpl; eauto]
+               | apply put_blob_ok; [apply Hg | eapply (Hg _); eassumption]
                | unfold del_sess; same_blobs; apply put_blob_ok; [apply Hg | simpl; unfold sess_digest; eauto] ]).
+  (* ABlobCreate of content that is there: the same content under a new time *)
+  all: try (match goal with Hb : assoc ?d (r_blobs (get_repo ?c ?rr ?s0)) = Some ?be |- blob_ok _ ?d (b_data ?be) => exact (Hg rr d be Hb) end).
   (* ABlobCreate builds the state directly *)
   all: try (intros r' rp' Ha; simpl in Ha; apply assoc_set_cases in Ha;
             destruct Ha as [[-> ->]|[_ Ha]]; [unfold put_sess; same_blobs; apply Hg | eapply H; eauto]).
